@@ -578,6 +578,22 @@ type reqSpace struct {
 	wktMasks []int
 	targets   []int        // bitmasks; nil = all non-empty subsets
 	filterWkt map[int]bool // WKT masks for which the per-plugin type filters are explored too
+	dagClass  string       // "" = every labelled DAG; "monotone" = only DAGs whose labels are topologically ascending or descending
+}
+
+// monotone: every edge goes from a larger to a smaller label, or every edge from a smaller to a larger one.
+// Every DAG shape has such a labelling; the fully labelled space is explored for n <= 3.
+func monotone(g enum.Digraph) bool {
+	up, down := true, true
+	for _, e := range g.Edges() {
+		if e[0] < e[1] {
+			down = false
+		}
+		if e[0] > e[1] {
+			up = false
+		}
+	}
+	return up || down
 }
 
 func allMasks(n int) []int {
@@ -615,21 +631,39 @@ func runRequests(r *evid.Run, spaces []reqSpace) {
 		sp := &spaces[si]
 		dags := enum.Digraphs(sp.n, true)
 		ls := layouts(sp.n, sp.dirs)
+		ndags := 0
 		for gi, g := range dags {
+			if sp.dagClass == "monotone" && !monotone(g) {
+				continue
+			}
+			ndags++
 			for _, l := range ls {
 				for _, w := range sp.wktMasks {
 					items = append(items, item{sp, g, gi, l, w})
 				}
 			}
 		}
-		r.Set(fmt.Sprintf("A_space_%d_n%d", si, sp.n), map[string]any{"dags": len(dags), "dirs": sp.dirs, "layouts": len(ls), "wkt_masks": sp.wktMasks, "type_filters_for_wkt_masks": len(sp.filterWkt)})
+		r.Set(fmt.Sprintf("A_space_%d_n%d", si, sp.n), map[string]any{"dags": ndags, "dag_class": sp.dagClass, "dirs": sp.dirs, "layouts": len(ls), "wkt_masks": sp.wktMasks, "type_filters_for_wkt_masks": len(sp.filterWkt)})
 	}
 	r.Set("A_images_planned", len(items))
+	// fixed stride order: should a deadline cut the run, the prefix that ran is spread over the whole space
+	stride := 7919
+	gcd := func(a, b int) int {
+		for b != 0 {
+			a, b = b, a%b
+		}
+		return a
+	}
+	for len(items) > 0 && gcd(stride, len(items)) != 1 {
+		stride++
+	}
+	order := func(i int) int { return (i * stride) % len(items) }
 	total := &ReqStats{}
 	var crossChecked, crossMismatch int
 	var mu = make(chan struct{}, 1)
 	mu <- struct{}{}
 	r.ParallelFor(len(items), 0, func(ix int) {
+		ix = order(ix)
 		it := items[ix]
 		c := &Corpus{N: it.sp.n, Dirs: it.layout, Wkt: make([]bool, it.sp.n)}
 		for _, e := range it.g.Edges() {
